@@ -103,4 +103,16 @@ package model
 //@   ensures [split-descriptor-names] ret1 == nil && part(archivePath, "/", 7, 0) == "diamonds" && ret0.SplitID != "" && ret0.GenerationID == "" ==> part(archivePath, "/", 7, 5) == "" || part(archivePath, "/", 7, 5) == "split-running.yaml" || part(archivePath, "/", 7, 5) == "split-done.yaml"
 //@   ensures [diamond-descriptor-names] ret1 == nil && part(archivePath, "/", 7, 0) == "diamonds" && ret0.SplitID == "" && ret0.ArchiveFileName != "" ==> part(archivePath, "/", 7, 3) == "diamond-running.yaml" || part(archivePath, "/", 7, 3) == "diamond-done.yaml"
 //@   ensures [generation] ret1 == nil && ret0.GenerationID != "" ==> nparts(archivePath, "/", 7) == 7 && ret0.GenerationID == part(archivePath, "/", 7, 5) && ret0.ArchiveFileName == part(archivePath, "/", 7, 6) && ret0.SplitID == part(archivePath, "/", 7, 4)
+// ... and every path of a known kind with the right file name at the right position IS accepted (the paths
+// the builders write parse back without error); split IDs are free-form, only diamond and generation IDs are ksuids
+//@   call Parse#1 bind dk = $ret1
+//@   call Parse#2 bind gk = $ret1
+//@   call MatchString#2 bind isIndex = $ret0
+//@   ensures [label-accepted] nparts(archivePath, "/", 7) >= 4 && part(archivePath, "/", 7, 0) == "labels" && part(archivePath, "/", 7, 3) == "label.yaml" ==> ret1 == nil
+//@   ensures [repo-accepted] nparts(archivePath, "/", 7) >= 3 && part(archivePath, "/", 7, 0) == "repos" && part(archivePath, "/", 7, 2) == "repo.yaml" ==> ret1 == nil
+//@   ensures [bundle-accepted] nparts(archivePath, "/", 7) >= 4 && part(archivePath, "/", 7, 0) == "bundles" && part(archivePath, "/", 7, 3) == "bundle.yaml" ==> ret1 == nil
+//@   ensures [diamond-accepted] nparts(archivePath, "/", 7) >= 4 && part(archivePath, "/", 7, 0) == "diamonds" && dk_set && dk == nil && (part(archivePath, "/", 7, 3) == "diamond-running.yaml" || part(archivePath, "/", 7, 3) == "diamond-done.yaml") ==> ret1 == nil
+//@   ensures [split-accepted] nparts(archivePath, "/", 7) == 6 && part(archivePath, "/", 7, 0) == "diamonds" && dk_set && dk == nil && part(archivePath, "/", 7, 3) == "splits" && part(archivePath, "/", 7, 4) != "" && (part(archivePath, "/", 7, 5) == "split-running.yaml" || part(archivePath, "/", 7, 5) == "split-done.yaml") ==> ret1 == nil
+//@   ensures [split-file-list-accepted] nparts(archivePath, "/", 7) == 7 && part(archivePath, "/", 7, 0) == "diamonds" && dk_set && dk == nil && part(archivePath, "/", 7, 3) == "splits" && part(archivePath, "/", 7, 4) != "" && part(archivePath, "/", 7, 5) != "" && part(archivePath, "/", 7, 5) != "split-running.yaml" && part(archivePath, "/", 7, 5) != "split-done.yaml" && gk_set && gk == nil && isIndex_set && isIndex ==> ret1 == nil
+//@   only Parse 2
 //@   ensures [unknown-kind-is-an-error] part(archivePath, "/", 7, 0) != "labels" && part(archivePath, "/", 7, 0) != "repos" && part(archivePath, "/", 7, 0) != "bundles" && part(archivePath, "/", 7, 0) != "contexts" && part(archivePath, "/", 7, 0) != "diamonds" ==> ret1 != nil
